@@ -189,6 +189,16 @@ theorem execI_skel {h d orig orig'} (hr : SkRel h d orig orig') (c : FCfg) (vals
   | .newTokReg .., _, _ => by simp [execI]
   | .setFlag i cd, n, _ => by simp [execI, evalFC_skel hr]
   | .setReg .., _, _ => by simp [execI]
+  | .setRegOpener .., _, _ => by simp [execI]
+  | .setRegLabel r f, n, _ => by
+    simp only [execI, curToks_rel hr]
+    unfold curToks
+    cases getOv n.w f with
+    | some l => rfl
+    | none =>
+      cases fieldAt orig f with
+      | nil => rfl
+      | cons t rest => simp [skelTok]
   | .clear .., _, _ => by simp [execI]
   | .ws .., _, _ => by simp [execI]
   | .indent .., _, _ => by simp [execI]
@@ -527,6 +537,10 @@ theorem execI_eff (c : FCfg) (orig : List (List Tok)) (vals : List (Option Bytes
   | .setFlag i cd, n, n', h => by
     simp only [execI] at h; cases h; simp only [daI, dakI]; exact eff_none rfl rfl
   | .setReg r lit, n, n', h => by
+    simp only [execI] at h; cases h; simp only [daI, dakI]; exact eff_none rfl rfl
+  | .setRegLabel r f, n, n', h => by
+    simp only [execI] at h; cases h; simp only [daI, dakI]; exact eff_none rfl rfl
+  | .setRegOpener r r2 nd, n, n', h => by
     simp only [execI] at h; cases h; simp only [daI, dakI]; exact eff_none rfl rfl
   | .clear f, n, n', h => by
     simp only [execI] at h; cases h; simp only [daI, dakI]; exact eff_tok f _ rfl rfl
@@ -987,6 +1001,8 @@ theorem execI_kw : ∀ (i : FI) (n n' : NSt), (∀ f ∈ acceptsI i, (fieldAt ki
   | .newTokReg .., n, n', _, h, hi => by simp only [execI] at h; cases h; exact hi
   | .setFlag .., n, n', _, h, hi => by simp only [execI] at h; cases h; exact hi
   | .setReg .., n, n', _, h, hi => by simp only [execI] at h; cases h; exact hi
+  | .setRegLabel .., n, n', _, h, hi => by simp only [execI] at h; cases h; exact hi
+  | .setRegOpener .., n, n', _, h, hi => by simp only [execI] at h; cases h; exact hi
   | .clear .., n, n', _, h, hi => by simp only [execI] at h; cases h; exact hi
   | .ws .., n, n', _, h, hi => by simp only [execI] at h; cases h; exact hi
   | .indent .., n, n', _, h, hi => by simp only [execI] at h; cases h; exact hi
@@ -1229,8 +1245,12 @@ theorem getFF_own {c : FCfg} {h : Nat} {s : FSt} (hs : StOwn c h s) :
 
 theorem newToken_own {c : FCfg} {h : Nat} {s : FSt} (hs : StOwn c h s) (id : Nat) (val : Bytes) :
     OwnTok c h (s.newToken c id val).1 ∧ StOwn c h (s.newToken c id val).2 := by
-  have := getFF_own (h := h) hs
-  exact ⟨this.1, this.2⟩
+  have h0 : StOwn c h (if signClash c s id then s.addWs c.tWs [32] else s) := by
+    split
+    · exact hs.addWs [32]
+    · exact hs
+  have := getFF_own (h := h) h0
+  exact ⟨this.1, fun x hx => by simp [FSt.newToken, FSt.getFF] at hx⟩
 
 theorem haltFF_own (c : FCfg) (h : Nat) (l : List FF) : ∀ x ∈ haltFF h l, OwnFF c h x := by
   intro x hx
@@ -1393,6 +1413,8 @@ theorem execI_own : ∀ (i : FI) (n n' : NSt), wsOKI c h i = true → execI c or
     exact ⟨a.2, hi.w.set f _ (by intro t ht; simp at ht; subst ht; exact a.1), hi.kw⟩
   | .setFlag .., n, n', _, hx, hi => by simp only [execI] at hx; cases hx; exact ⟨hi.st, hi.w, hi.kw⟩
   | .setReg .., n, n', _, hx, hi => by simp only [execI] at hx; cases hx; exact ⟨hi.st, hi.w, hi.kw⟩
+  | .setRegLabel .., n, n', _, hx, hi => by simp only [execI] at hx; cases hx; exact ⟨hi.st, hi.w, hi.kw⟩
+  | .setRegOpener .., n, n', _, hx, hi => by simp only [execI] at hx; cases hx; exact ⟨hi.st, hi.w, hi.kw⟩
   | .clear f, n, n', _, hx, hi => by
     simp only [execI] at hx; cases hx
     exact ⟨hi.st, hi.w.set f _ (by simp), hi.kw⟩
